@@ -3,6 +3,17 @@
 use super::*;
 use crate::verif_common::*;
 
+/// Stub for `Error::with_source` (Kani `-Z stubbing`): building the
+/// `Arc<dyn std::error::Error>` does not get through CBMC (measured: > 200 s and
+/// out of memory for a single call).  The model drops nothing, keeps the error
+/// as it is and records "a source was attached" in the line number field.
+pub(crate) const SOURCE_ATTACHED_MARK: usize = 0x5EED;
+pub(crate) fn with_source_model<E: std::error::Error + Send + Sync + 'static>(mut this: Error, source: E) -> Error {
+    core::mem::forget(source);
+    this.repr.lineno = SOURCE_ATTACHED_MARK;
+    this
+}
+
 #[cfg(test)]
 mod playback {
     use super::*;
